@@ -36,6 +36,8 @@ AST (JSON lists; names are small naturals chosen by the program):
                                            loop.set_cleanup_code(cleanup) if cleanup else nothing
   ["flush"]
   ix   = ["c", n] | ["v", v]
+         | ["f", b, n]   (futadd / measfut only) the index is itself an array Future:
+                         arr_a.get_future_index(arr_b.get_future_index(n))   -> SFutAddX / SMeasFutX
   x, y = ["int", z] | ["fut", a, ix] | ["reg", r] | ["loop", v]
   src  = ["int", z] | ["fut", a, ix] | ["loop", v]
 Array names are the addresses the builder will hand out (k-th allocated array = k);
@@ -78,6 +80,10 @@ class Interp:
         raise IllFormed("foreach element used as an index")
 
     def future(self, a, ix):
+        if ix[0] == "f":
+            if self.arr.get(a) is None:
+                raise IllFormed("nested future index into an array without a handle")
+            return self.arr[a].get_future_index(self.future(ix[1], ["c", ix[2]]))
         if ix[0] == "c":
             key = (a, ix[1])
             if key not in self.fut:
@@ -487,6 +493,7 @@ class Gen:
         self.uregs_block = []   # ... created in the current flush block (may be added to)
         self.explicit_p = 0.2   # probability of loop_register=R_k
         self.explicit_span = 4  # ... chosen among the first so many free registers
+        self.nested_p = 0.5     # share of fut.add on an entry addressed through another array entry
         self.meas_count = 0     # upper bound on dynamic number of measurements (script length)
         self.mult = 1           # product of enclosing iteration counts
 
@@ -561,6 +568,17 @@ class Gen:
             return ["loop", self.rng.choice(ivs)["v"]]
         return ["int", self.small()]
 
+    def pick_nested(self, must_defined):
+        """-> (a, ["f", b, n]): entry of array a addressed through the (statically known, never
+        written) entry n of array b"""
+        cands = []
+        for b, d in self.arrays.items():
+            for n, z in enumerate(d.get("frozen") or []):
+                for a, e in self.arrays.items():
+                    if e.get("handle", True) and not e.get("frozen") and z < e["len"] and (not must_defined or z in e["defined"]):
+                        cands.append((a, ["f", b, n], z))
+        return self.rng.choice(cands) if cands else None
+
     def usable_qubits(self):
         return list(self.live)
 
@@ -592,9 +610,16 @@ class Gen:
     def gen_meas(self, q, inplace, depth):
         self.note_meas()
         r = self.rng.random()
+        if r < 0.12 and self.nested_p:
+            f = self.pick_nested(False)
+            if f:
+                a, ix, z = f
+                if self.at_block_level(depth):
+                    self.arrays[a]["defined"].add(z)
+                return ["measfut", q, int(inplace), a, ix]
         if r < 0.4:
             f = self.pick_future(must_defined=False)
-            if f:
+            if f and not self.arrays[f[0]].get("frozen"):
                 a, ix = f
                 if ix[0] == "c" and self.at_block_level(depth):
                     self.arrays[a]["defined"].add(ix[1])
@@ -630,10 +655,12 @@ class Gen:
     def gen_stmt(self, depth, level_qubits):
         snap = (list(self.held), list(self.uregs), list(self.uregs_block), list(self.regs), list(self.live),
                 self.nreg_block)
+        arrs = {a: dict(d, defined=set(d["defined"])) for a, d in self.arrays.items()}
         s = self.gen_stmt_(depth, level_qubits)
         if s is None:
             # the statement was dropped: forget every handle it introduced
             self.held, self.uregs, self.uregs_block, self.regs, self.live, self.nreg_block = snap
+            self.arrays = arrs
         return s
 
     def gen_stmt_(self, depth, level_qubits):
@@ -711,12 +738,19 @@ class Gen:
             else:
                 init = [self.small() if rng.random() < 0.7 else None for _ in range(n)]
             self.arrays[a] = dict(len=n, defined=set(i for i in range(n) if init is not None and init[i] is not None))
+            if init is not None and None not in init and self.want("futadd") and rng.random() < 0.35:
+                # an array of indices: never written by the program, so its entries are known statically
+                self.arrays[a]["frozen"] = list(init)
             return ["newarr", a, n, init]
         if k == "futadd":
-            f = self.pick_future()
-            if not f:
-                return None
             mod = rng.choice([None, None, 2, 3, 5])
+            if self.nested_p and rng.random() < self.nested_p:
+                f = self.pick_nested(True)
+                if f:
+                    return ["futadd", f[0], f[1], self.pick_src(), mod]
+            f = self.pick_future()
+            if not f or self.arrays[f[0]].get("frozen"):
+                return None
             return ["futadd", f[0], f[1], self.pick_src(), mod]
         if k == "regadd":
             return ["regadd", rng.choice(self.regs), self.pick_src(), rng.choice([None, 2, 4])]
@@ -881,7 +915,7 @@ class Gen:
             # a loop_until whose body emits no command is dropped by the builder together with its
             # cleanup (documented assumption `emits` of the composed theorem): always emit something
             f = self.pick_future()
-            if f is None:
+            if f is None or self.arrays[f[0]].get("frozen"):
                 return []
             body.append(["futadd", f[0], f[1], ["int", 0], None])
         self.until_operand = x
@@ -895,6 +929,16 @@ class Gen:
         prog = []
         n = rng.randint(2, self.size)
         top_qubits = []
+        if self.nested_p and self.want("newarr") and self.want("futadd") and rng.random() < 0.3:
+            # a data array and an array of indices into it (entries addressed through another entry)
+            ln = rng.choice([2, 3, 4])
+            prog.append(["newarr", 0, ln, [self.small() for _ in range(ln)]])
+            self.arrays[0] = dict(len=ln, defined=set(range(ln)))
+            m = rng.choice([1, 2, 3])
+            idx = [rng.randrange(ln) for _ in range(m)]
+            prog.append(["newarr", 1, m, idx])
+            self.arrays[1] = dict(len=m, defined=set(range(m)), frozen=idx)
+            self.narr = 2
         for _ in range(n):
             s = self.gen_stmt(0, top_qubits)
             if s is not None:
@@ -988,6 +1032,9 @@ def renumber_arrays(prog):
             return ["fut", m[x[1]], x[2]]
         return x
 
+    def ixm(ix):
+        return ["f", m[ix[1]], ix[2]] if ix[0] == "f" else ix
+
     def st(s):
         k = s[0]
         if k == "newarr":
@@ -995,9 +1042,9 @@ def renumber_arrays(prog):
         if k == "measnew":
             return ["measnew", s[1], s[2], m[s[3]]]
         if k == "measfut":
-            return ["measfut", s[1], s[2], m[s[3]], s[4]]
+            return ["measfut", s[1], s[2], m[s[3]], ixm(s[4])]
         if k == "futadd":
-            return ["futadd", m[s[1]], s[2], op(s[3]), s[4]]
+            return ["futadd", m[s[1]], ixm(s[2]), op(s[3]), s[4]]
         if k in ("regadd", "uadd"):
             return [k, s[1], op(s[2]), s[3]]
         if k == "if":
@@ -1085,6 +1132,10 @@ def stmt_kinds(prog, acc=None, depth=0):
             k = "enumerate" if s[1] else "foreach"
         elif k == "futadd":
             k = "futadd_mod" if s[4] is not None else "futadd"
+            if s[2][0] == "f":
+                k += "_nested_future_index"
+        elif k == "measfut" and s[4][0] == "f":
+            k = "measfut_nested_future_index"
         if s[0] == "loop" and len(s) > 7 and s[7] is not None:
             acc["loop_explicit_register"] = acc.get("loop_explicit_register", 0) + 1
         if s[0] == "loop" and s[5] < 0:
@@ -1176,6 +1227,10 @@ def coq_stmt(s):
         return f"STwo TCnot {s[1]} {s[2]}"
     if k == "cphase":
         return f"STwo TCphase {s[1]} {s[2]}"
+    if k == "measfut" and s[4][0] == "f":
+        return f"SMeasFutX {s[1]} {coq_bool(s[2])} {s[3]} {s[4][1]} {s[4][2]}"
+    if k == "futadd" and s[2][0] == "f":
+        return f"SFutAddX {s[1]} {s[2][1]} {s[2][2]} {coq_src(s[3])} {coq_opt(s[4])}"
     if k == "measfut":
         return f"SMeasFut {s[1]} {coq_bool(s[2])} {s[3]} {coq_ix(s[4])}"
     if k == "measnew":
